@@ -126,7 +126,7 @@ def phase (o : Opts T) (report sched : T) (taken : Nat) (s : St T) : Phase T :=
         .ret .endOfSimulation { s with useInterp := false, scs := .finalReturned }
       else .advance s
   | .completedWithEvent =>
-      if report < s.tLow then
+      if report ≤ s.tLow then
         if report < s.tAdv then
           .ret .reachedReportTime { s with tInterp := report, useInterp := true }
         else
